@@ -4,7 +4,7 @@
    `den v c` is the exact quantity of commodity c in a value, `sum_den l c` the exact sum
    over the amounts of a list of postings. *)
 From LedgerV Require Import Base.Prelude Base.Round Model.Amount Proofs.AmountProofs
-  Model.Regroup Proofs.RegroupProofs.
+  Gen.ByPayeeLabel Model.Regroup Proofs.RegroupProofs.
 From Coq Require Import Permutation Sorting.Sorted.
 Local Open Scope Z_scope.
 
@@ -175,29 +175,63 @@ Theorem by_payee_sums : forall l rows,
     StronglySorted str_lt (map fst m) /\
     buckets_ok m /\
     rows = concat rr /\
-    Forall2 (fun e o => exists b, subtotal_group (fun _ => PName (fst e)) (xid_subtotal b) (snd e) = Ok o) m rr /\
+    Forall2 (fun e o => exists b, subtotal_group (payee_label src_by_payee_label (fst e)) (xid_subtotal b) (snd e) = Ok o) m rr /\
     forall c, (sum_den rows c == sum_den l c)%Q.
 Proof. exact RegroupProofs.by_payee_sums. Qed.
 Print Assumptions by_payee_sums.
 
 (* the grouping key of --by-payee is post_t::payee() - the posting's own payee where it
-   names one, else its transaction's: every row (k, a) is the exact per-commodity sum of
-   the input postings with that payee and account, every posting has its row, and no two
-   rows share payee and account (each posting is in exactly one group) *)
-Theorem by_payee_partition : forall l rows,
-  by_payee l = Ok rows ->
-  (forall r, In r rows -> exists k, ppayee r = PName k /\
+   names one, else its transaction's: every row stands for a payee name k and an account a
+   and is the exact per-commodity sum of the input postings with that payee and account,
+   every posting has its row, and no two rows share payee and account (each posting is in
+   exactly one group).  `mode` is how the source labels the row (Gen/ByPayeeLabel.v, read
+   from src/filters.cc on every run); when the name is copied literally the row's payee IS
+   the name. *)
+Theorem by_payee_partition : forall mode l rows,
+  by_payee_mode mode l = Ok rows ->
+  (forall r, In r rows -> exists k, payee_name (ppayee r) = Some k /\
+     (mode = LabelLiteral -> ppayee r = PName k) /\
      forall c, (den (pamt r) c ==
                 sum_den (filter (fun p => payee_isb k p && acct_is (pacct r) p) l) c)%Q) /\
   (forall p, In p l -> exists k r, ppayee p = PName k /\ In r rows /\
-     ppayee r = PName k /\ pacct r = pacct p).
-Proof. exact RegroupProofs.by_payee_partition. Qed.
+     payee_name (ppayee r) = Some k /\ pacct r = pacct p).
+Proof. exact by_payee_mode_partition. Qed.
 Print Assumptions by_payee_partition.
 
-Theorem by_payee_one_row_per_group : forall l rows,
-  by_payee l = Ok rows -> NoDup (map row_key rows).
-Proof. exact RegroupProofs.by_payee_one_row_per_group. Qed.
+Theorem by_payee_one_row_per_group : forall mode l rows,
+  by_payee_mode mode l = Ok rows -> NoDup (map row_key rows).
+Proof. exact by_payee_mode_one_row_per_group. Qed.
 Print Assumptions by_payee_one_row_per_group.
+
+(* the model of the source as it is: *)
+Theorem by_payee_is_the_source_mode : forall l, by_payee l = by_payee_mode src_by_payee_label l.
+Proof. reflexivity. Qed.
+Print Assumptions by_payee_is_the_source_mode.
+
+(* ---- finding F70: as long as by_payee_posts::flush hands the payee name to
+   report_subtotal as spec_fmt (mode LabelStrftime), a name containing '%' (or 127 bytes
+   long) is not shown as it is but run through strftime.  The statement "every row of
+   --by-payee is labelled with its payee name" is false of that model. ---- *)
+Theorem by_payee_label_is_name_refuted :
+  exists l rows r, by_payee_mode LabelStrftime l = Ok rows /\ In r rows /\
+    forall k, ppayee r <> PName k.
+Proof.
+  exists [mkPost 0 18690 18690 (PName [53; 48; 37; 100]) (PName [53; 48; 37; 100]) [65] false 0
+            (VAmt (mkAmt 1 0 false (Some [36])))].
+  eexists. eexists. split; [vm_compute; reflexivity|]. split; [left; reflexivity|].
+  intros k. discriminate.
+Qed.
+Print Assumptions by_payee_label_is_name_refuted.
+
+(* ---- option combinations: --sort after any regrouping returns a permutation of the
+   regrouped rows (which satisfy the *_sums theorems), with the same grand total ---- *)
+Theorem sort_after_regroup_perm : forall o l rows,
+  report o l = Ok rows -> o_head o = None -> o_tail o = None ->
+  exists c, before_sort o l = Ok c /\
+    Permutation c (map fst rows) /\
+    forall cm, (den (last (map snd rows) VVoid) cm == sum_den c cm)%Q.
+Proof. exact RegroupProofs.sort_after_regroup_perm. Qed.
+Print Assumptions sort_after_regroup_perm.
 
 Theorem dow_sums : forall l rows,
   day_of_week_posts l = Ok rows ->
